@@ -25,11 +25,14 @@ RULE += (
     ' validate=1 on the same bytes, a non-validating reader then a validating reader over the same bytes,'
     ' validate=0 under headers that do not describe the buffer.'
 )
+RULE += (
+    " Also: byte strings whose intermediate remainder is steered to special values (zero, single bits, 0x010000, all ones) before zero / 0xFF / arbitrary bytes."
+)
 ASSUMPTIONS = [
     "GF(2) long-division reference and table-driven reference agree on every input (checked at run time)",
     "frame length << 2^23-1 bits, so every 2-bit error is detectable; (x+1) | G so every odd-weight error is",
 ]
-GATES = ["crc_compared", "append_zero_checked", "single_bit_checked", "double_bit_checked", "odd_checked",
+GATES = ["special_intermediate_remainders", "crc_compared", "append_zero_checked", "single_bit_checked", "double_bit_checked", "odd_checked",
          "burst_checked", "validate0_checked", "lengths_enumerated",
          "syndrome_targeted_bursts", "nested_frames", "intact_parsed_first", "flag_values_checked", "validate0_then_1_checked", "inplace_sequences"]
 
@@ -242,6 +245,21 @@ def run(ctx):
             if not crc_case(ctx, p, "pattern"):
                 return
         ctx.hit("lengths_enumerated")
+    # byte strings whose INTERMEDIATE remainder is special (zero, one bit set, only the top / middle / low byte set,
+    # all ones ...) right before zero bytes, 0xFF bytes or arbitrary bytes follow
+    specials = [0, 0xFFFFFF, 0x7FFFFF, 0x00FFFF, 0x0000FF, 0xFF0000, 0x00FF00, 0xFFFF00] + [1 << b for b in range(24)] \
+        + [(1 << b) - 1 for b in (8, 9, 15, 16, 17, 23)] + [0x010001, 0x010100, 0x018000, 0x00FFFE, 0x010002]
+    for k, sp in enumerate(specials):
+        if not ctx.mine(k):
+            continue
+        for rep in range(6 if ctx.quick else 60):
+            head = streams.steer_raw(bytes(rng.getrandbits(8) for _ in range(rng.choice((0, 1, 2, 5, 30)))), sp)
+            for tail in (b"", b"\x00", b"\x00\x00", b"\x00" * 3, b"\x00" * 7, b"\xff", b"\x00\xff", b"\x01", b"\x80",
+                         b"\x00" + bytes(rng.getrandbits(8) for _ in range(4)),
+                         bytes(rng.getrandbits(8) for _ in range(rng.randint(1, 9)))):
+                if not crc_case(ctx, head + tail, "steered-state"):
+                    return
+        ctx.hit("special_intermediate_remainders")
     # every byte value at first / middle / last position
     for v in range(256):
         if not ctx.mine(v):
